@@ -34,7 +34,7 @@ CoreStore(b)  == /\ b \in sq /\ Write(b)
 Answer(m) == /\ m \in net /\ m.k = "breq" /\ net' = net \ {m}
              /\ IF m.to \notin Good THEN UNCHANGED <<vars, inbox, vq, sq>>
                 ELSE inbox' = inbox \cup {m.d} /\ UNCHANGED <<vars, vq, sq>>
-Tick == \E dt \in Steps : Advance(dt) /\ net' = net \cup Frames(out') /\ UNCHANGED <<inbox, vq, sq>>
+Tick == \E dt \in Steps \cup {NextDeadline} : Advance(dt) /\ net' = net \cup Frames(out') /\ UNCHANGED <<inbox, vq, sq>>
 BatchArrives(m, d) == /\ m \in net /\ m.k = "mreq" /\ m.to \in Good /\ d \in m.ds /\ d \notin stored
                       /\ Write(d) /\ inbox' = inbox \cup Looped(out') /\ UNCHANGED <<net, vq, sq>>
 LNext == \/ \E b \in Blocks : CoreParent(b) \/ CoreVerify(b) \/ CoreStore(b)
